@@ -165,7 +165,10 @@ def oracle(code, obs, must_complete, determinism=None, offset=0):
             bad.append(({"kind": "not-idempotent", "what": "feedback"},
                         "call %d attached %d more feedback object(s) to the report" % (k, c["feedback"] - c0["feedback"])))
     if determinism is not None and determinism != c0["issues"]:
-        bad.append(({"kind": "nondeterministic"}, "a fresh analysis of the same code gave different issues"))
+        only_a = [i for i in c0["issues"] if i not in determinism] if isinstance(determinism, list) else []
+        only_b = [i for i in determinism if i not in c0["issues"]] if isinstance(determinism, list) else determinism
+        bad.append(({"kind": "nondeterministic"}, "a fresh analysis of the same code gave different issues (only in the "
+                    "first: %s; only in the fresh one: %s)" % (json.dumps(only_a)[:300], json.dumps(only_b)[:300])))
     n = nlines(code)
     for label, name, line in c0["issues"]:
         if line is not None and not (offset + 1 <= line <= offset + n):
